@@ -4,6 +4,7 @@ import (
 	"bytes"
 	"encoding/hex"
 	"fmt"
+	"github.com/jcmturner/gokrb5/v8/crypto/common"
 	"github.com/jcmturner/gokrb5/v8/zzverif/vclock"
 	"math/rand"
 	"strings"
@@ -284,6 +285,17 @@ func nfoldAndDerivation(c *engine.Ctx) {
 			}
 		}
 	}
+	// the usage constants as the library itself builds them from a usage number (RFC 3961 5.3: the number as four
+	// octets, most significant first, followed by 0xAA / 0x99 / 0x55)
+	for _, u := range append(denseUsages(nil), 0x00010005, 0x00020000, 0x00ff0000, 0x12345678, 0x89abcdef, 0xffffffff, 0x00018000, 0x0003ffff, 0x00040000) {
+		for tag, f := range map[byte]func(uint32) []byte{0xAA: common.GetUsageKe, 0x99: common.GetUsageKc, 0x55: common.GetUsageKi} {
+			c.Add("evaluations", 1)
+			if got, want := f(u), append(be32(u), tag); !bytes.Equal(got, want) {
+				c.Violate("dk", fmt.Sprintf("usage-constant:differs:tag-%02x:%s", tag, usageWidth(u)), map[string]interface{}{"got": hex.EncodeToString(got), "want": hex.EncodeToString(want)}, map[string]interface{}{"usage": u})
+			}
+		}
+	}
+	c.Distinct("usage-constants")
 	// RFC 8009: Kc/Ke/Ki and "kerberos" through DeriveKey, and KDF-HMAC-SHA2 directly with labels of every length
 	for _, et := range []int32{rcrypto.A128S2, rcrypto.A256S2} {
 		g := goET(et)
@@ -455,94 +467,115 @@ func paDataPrecedence(c *engine.Ctx) {
 				// the etype named by ETYPE-INFO, independently of the one named by ETYPE-INFO2 (hintEt)
 				for _, hintEtInfo := range []int32{hintEt, flipEtype(et, hintEt)} {
 					for _, seq0 := range seqs {
-						// unrelated PA-data elements (types below, between and above the hint types) at every position must not matter
-						for _, unrelated := range unrelatedVariants(len(seq0)) {
-							seq := seq0
-							if aes && !withParams && len(unrelated) > 0 {
-								continue // default iteration counts are expensive; the interleavings run with explicit parameters and on des3/rc4
-							}
-							if hintEtInfo != hintEt && (len(unrelated) > 0 || aes && !withParams) {
-								continue // the two hints naming different etypes: without unrelated elements, cheap parameters only
-							}
-							var pas types.PADataSequence
-							emit := func(pos int) {
-								for _, t := range unrelated[pos] {
-									pas = append(pas, types.PAData{PADataType: t, PADataValue: []byte{0x30, 0x00}})
+						// which of the two structured hints come without a salt (0: none, 1: ETYPE-INFO2, 2: ETYPE-INFO, 3: both):
+						// a winning hint without a salt means the default salt, whatever salts the losing hints carry
+						for saltless := 0; saltless < 4; saltless++ {
+							// unrelated PA-data elements (types below, between and above the hint types) at every position must not matter
+							for _, unrelated := range unrelatedVariants(len(seq0)) {
+								if saltless > 0 && (len(unrelated) > 0 || hintEtInfo != hintEt || aes && !withParams) {
+									continue
 								}
-							}
-							for pos, k := range seq {
-								emit(pos)
-								switch k {
-								case paPWSalt:
-									pas = append(pas, types.PAData{PADataType: paPWSalt, PADataValue: []byte(sPW)})
-								case paInfo:
-									pas = append(pas, types.PAData{PADataType: paInfo, PADataValue: etypeInfo(hintEtInfo, &sI)})
-								case paInfo2:
-									var pr []byte
+								seq := seq0
+								if aes && !withParams && len(unrelated) > 0 {
+									continue // default iteration counts are expensive; the interleavings run with explicit parameters and on des3/rc4
+								}
+								if hintEtInfo != hintEt && (len(unrelated) > 0 || aes && !withParams) {
+									continue // the two hints naming different etypes: without unrelated elements, cheap parameters only
+								}
+								var pas types.PADataSequence
+								emit := func(pos int) {
+									for _, t := range unrelated[pos] {
+										pas = append(pas, types.PAData{PADataType: t, PADataValue: []byte{0x30, 0x00}})
+									}
+								}
+								for pos, k := range seq {
+									emit(pos)
+									switch k {
+									case paPWSalt:
+										pas = append(pas, types.PAData{PADataType: paPWSalt, PADataValue: []byte(sPW)})
+									case paInfo:
+										si := &sI
+										if saltless&2 != 0 {
+											si = nil
+										}
+										pas = append(pas, types.PAData{PADataType: paInfo, PADataValue: etypeInfo(hintEtInfo, si)})
+									case paInfo2:
+										var pr []byte
+										if withParams {
+											pr = be32(7)
+										}
+										si2 := &sI2
+										if saltless&1 != 0 {
+											si2 = nil
+										}
+										pas = append(pas, types.PAData{PADataType: paInfo2, PADataValue: etypeInfo2(hintEt, si2, pr)})
+									}
+								}
+								emit(len(seq))
+								has := func(k int32) bool {
+									for _, x := range seq {
+										if x == k {
+											return true
+										}
+									}
+									return false
+								}
+								// RFC 4120 5.2.7.5: ETYPE-INFO2 > ETYPE-INFO > PW-SALT > default
+								wantSalt, wantEt := defSalt, et
+								var wantParams []byte
+								switch {
+								case has(paInfo2):
+									wantSalt, wantEt = sI2, hintEt
+									if saltless&1 != 0 {
+										wantSalt = defSalt
+									}
 									if withParams {
-										pr = be32(7)
+										wantParams = be32(7)
 									}
-									pas = append(pas, types.PAData{PADataType: paInfo2, PADataValue: etypeInfo2(hintEt, &sI2, pr)})
-								}
-							}
-							emit(len(seq))
-							has := func(k int32) bool {
-								for _, x := range seq {
-									if x == k {
-										return true
+								case has(paInfo):
+									wantSalt, wantEt = sI, hintEtInfo
+									if saltless&2 != 0 {
+										wantSalt = defSalt
 									}
+								case has(paPWSalt):
+									wantSalt = sPW
 								}
-								return false
-							}
-							// RFC 4120 5.2.7.5: ETYPE-INFO2 > ETYPE-INFO > PW-SALT > default
-							wantSalt, wantEt := defSalt, et
-							var wantParams []byte
-							switch {
-							case has(paInfo2):
-								wantSalt, wantEt = sI2, hintEt
-								if withParams {
-									wantParams = be32(7)
+								if _, ok := rcrypto.Get(wantEt); !ok {
+									continue
 								}
-							case has(paInfo):
-								wantSalt, wantEt = sI, hintEtInfo
-							case has(paPWSalt):
-								wantSalt = sPW
-							}
-							if _, ok := rcrypto.Get(wantEt); !ok {
-								continue
-							}
-							if wantEt == rcrypto.DES3 || wantEt == rcrypto.RC4 {
-								wantParams = nil
-							}
-							cs := map[string]interface{}{"etype": et, "hint_etype": hintEt, "etype_info_names_etype": hintEtInfo, "sequence": seq, "with_s2kparams": withParams, "unrelated_padata_at_positions": unrelated}
-							var key types.EncryptionKey
-							var err error
-							var gotEt int32
-							if pn := safely(func() {
-								k, e, er := crypto.GetKeyFromPassword("pa55word", cname, realm, et, pas)
-								key, err = k, er
-								if e != nil {
-									gotEt = e.GetETypeID()
+								if wantEt == rcrypto.DES3 || wantEt == rcrypto.RC4 {
+									wantParams = nil
 								}
-							}); pn != "" {
-								c.Violate("padata", fmt.Sprintf("padata:et%d:panic", et), map[string]interface{}{"panic": pn}, cs)
-								continue
+								cs := map[string]interface{}{"etype": et, "hint_etype": hintEt, "etype_info_names_etype": hintEtInfo, "hints_without_salt": []string{"none", "ETYPE-INFO2", "ETYPE-INFO", "both"}[saltless], "sequence": seq, "with_s2kparams": withParams, "unrelated_padata_at_positions": unrelated}
+								var key types.EncryptionKey
+								var err error
+								var gotEt int32
+								if pn := safely(func() {
+									k, e, er := crypto.GetKeyFromPassword("pa55word", cname, realm, et, pas)
+									key, err = k, er
+									if e != nil {
+										gotEt = e.GetETypeID()
+									}
+								}); pn != "" {
+									c.Violate("padata", fmt.Sprintf("padata:et%d:panic", et), map[string]interface{}{"panic": pn}, cs)
+									continue
+								}
+								c.Add("evaluations", 1)
+								want, rerr := rcrypto.StringToKey(wantEt, "pa55word", wantSalt, wantParams)
+								if rerr != nil {
+									engine.Fatal("reference: %v", rerr)
+								}
+								if err != nil || !bytes.Equal(key.KeyValue, want) {
+									used := whichSalt(et, hintEt, key.KeyValue, []string{defSalt, sPW, sI, sI2}, withParams)
+									c.Violate("padata", fmt.Sprintf("padata:precedence:%s", seqName(seq)), map[string]interface{}{"err": fmt.Sprint(err), "want_salt": wantSalt, "gokrb5_used": used, "want_etype": wantEt, "got_etype": gotEt}, cs)
+									continue
+								}
+								if gotEt != wantEt {
+									c.Violate("padata", fmt.Sprintf("padata:etype:%s", seqName(seq)), map[string]interface{}{"want_etype": wantEt, "got_etype": gotEt}, cs)
+									continue
+								}
+								c.Distinct(fmt.Sprintf("padata/%d/%d/%d/%v/%s/%v/%d", et, hintEt, hintEtInfo, withParams, seqName(seq), unrelated, saltless))
 							}
-							c.Add("evaluations", 1)
-							want, rerr := rcrypto.StringToKey(wantEt, "pa55word", wantSalt, wantParams)
-							if rerr != nil {
-								engine.Fatal("reference: %v", rerr)
-							}
-							if err != nil || !bytes.Equal(key.KeyValue, want) {
-								used := whichSalt(et, hintEt, key.KeyValue, []string{defSalt, sPW, sI, sI2}, withParams)
-								c.Violate("padata", fmt.Sprintf("padata:precedence:%s", seqName(seq)), map[string]interface{}{"err": fmt.Sprint(err), "want_salt": wantSalt, "gokrb5_used": used, "want_etype": wantEt, "got_etype": gotEt}, cs)
-								continue
-							}
-							if gotEt != wantEt {
-								c.Violate("padata", fmt.Sprintf("padata:etype:%s", seqName(seq)), map[string]interface{}{"want_etype": wantEt, "got_etype": gotEt}, cs)
-								continue
-							}
-							c.Distinct(fmt.Sprintf("padata/%d/%d/%d/%v/%s/%v", et, hintEt, hintEtInfo, withParams, seqName(seq), unrelated))
 						}
 					}
 				}
@@ -718,6 +751,18 @@ func truncErr(err error) string {
 	return s
 }
 
+func usageWidth(u uint32) string {
+	switch {
+	case u < 256:
+		return "usage<256"
+	case u < 65536:
+		return "usage<65536"
+	case u < 1<<24:
+		return "usage<2^24"
+	}
+	return "usage>=2^24"
+}
+
 // denseUsages: the named usage set, every usage number 0..1200, and numbers carrying one of the three derivation
 // tag octets (0x55, 0x99, 0xAA) in each byte position, alone and next to another tag octet.
 func denseUsages(key []byte) []uint32 {
@@ -801,6 +846,43 @@ func generatedKeys(c *engine.Ctx) {
 			}
 			c.Add("evaluations", 1)
 			checkUsable(c, et, p, a.SubKey, cs2)
+		}
+	}
+	// one Authenticator asked for sub-keys of different etypes in turn (larger key first, then smaller, then larger):
+	// every key has its etype's length, and a key handed out earlier is not changed by a later call
+	for _, order := range [][]int32{{18, 17, 23, 16, 20, 19, 18}, {17, 18, 17}, {20, 19, 16, 23}, {16, 17, 16}} {
+		var a types.Authenticator
+		var handed []types.EncryptionKey
+		var copies [][]byte
+		for step, et := range order {
+			g := goET(et)
+			p, _ := rcrypto.Get(et)
+			cs := map[string]interface{}{"etype": et, "generator": "Authenticator.GenerateSeqNumberAndSubKey on one Authenticator", "etype_order": order, "step": step}
+			var err error
+			if pn := safely(func() { err = a.GenerateSeqNumberAndSubKey(et, g.GetKeyByteSize()) }); pn != "" || err != nil {
+				c.Violate("genkey", fmt.Sprintf("subkey:et%d:error:repeated-generation", et), map[string]interface{}{"panic": pn, "err": fmt.Sprint(err)}, cs)
+				break
+			}
+			c.Add("evaluations", 1)
+			if a.SubKey.KeyType != et || len(a.SubKey.KeyValue) != p.KeyLen {
+				c.Violate("genkey", fmt.Sprintf("subkey:et%d:wrong-length:repeated-generation", et), map[string]interface{}{"len": len(a.SubKey.KeyValue), "want": p.KeyLen, "keytype": a.SubKey.KeyType}, cs)
+				break
+			}
+			checkUsable(c, et, p, a.SubKey, cs)
+			bad := false
+			for i, h := range handed {
+				if !bytes.Equal(h.KeyValue, copies[i]) {
+					c.Violate("genkey", "subkey:earlier-key-overwritten:repeated-generation", map[string]interface{}{"earlier_step": i}, cs)
+					bad = true
+					break
+				}
+			}
+			if bad {
+				break
+			}
+			handed = append(handed, a.SubKey)
+			copies = append(copies, append([]byte{}, a.SubKey.KeyValue...))
+			c.Distinct(fmt.Sprintf("subkey-repeat/%v/%d", order, step))
 		}
 	}
 }
